@@ -21,6 +21,7 @@ package fuzz
 
 import (
 	"fmt"
+	"os"
 	"strings"
 	"testing"
 
@@ -68,7 +69,7 @@ func cbGenGenesis(rt *rapid.T) cbGenesis {
 	if rapid.IntRange(0, 4).Draw(rt, "with_offender") == 0 {
 		g.Offender = g.Iota[rapid.IntRange(0, 5).Draw(rt, "offender")]
 	}
-	g.Ancestry = rapid.Bool().Draw(rt, "ancestry")
+	g.Ancestry = rapid.IntRange(0, 3).Draw(rt, "ancestry") == 0
 	return g
 }
 
@@ -137,8 +138,9 @@ type c26Ev struct { // what node A was given at one step
 	Accepted bool
 	Root     types.StateRoot
 	Err      string
-	NAccBefore int // accepted blocks (incl. genesis) before this step
-	Dirty    bool // the previous import on A was a rejection
+	NAccBefore int  // accepted blocks (incl. genesis) before this step
+	Dirty      bool // the previous import on A was a rejection
+	OffHead    bool // the block's parent field is not the hash of A's head at that time
 }
 
 func cbCloneBlock(b types.Block) types.Block {
@@ -164,6 +166,8 @@ func cbCloneBlock(b types.Block) types.Block {
 func cbImport(n *cbNode, b types.Block) (root types.StateRoot, err error) {
 	return n.svc.ImportBlock(cbCloneBlock(b))
 }
+
+var cbDebug = os.Getenv("VERIF_CB_DEBUG") != ""
 
 const c26Retain = 18 // fork targets stay well inside the 24-block fuzz-mode history
 
@@ -284,12 +288,17 @@ func c26Check(c *kit.Case, in c26Input) {
 			ev.Block, ev.Hash, ev.Mut = au.Block, au.Hash, au.Mut
 		}
 
+		ev.OffHead = ev.Block.Header.Parent != acc[head].Hash
 		root, ierr := cbImport(A, ev.Block)
 		ev.Accepted, ev.Root = ierr == nil, root
 		if ierr != nil {
 			ev.Err = ierr.Error()
 		}
 		evs = append(evs, ev)
+		if cbDebug {
+			fmt.Printf("A step %d kind=%s mut=%s slot=%d parentIdx=%d head=%d hash=%x accepted=%v root=%x err=%q offhead=%v\n",
+				si, kind, ev.Mut, ev.Block.Header.Slot, parent, head, ev.Hash[:4], ev.Accepted, root[:4], ev.Err, ev.OffHead)
+		}
 		label := kind
 		if ev.Mut != "" {
 			label += ":" + ev.Mut
@@ -400,6 +409,9 @@ func c26Check(c *kit.Case, in c26Input) {
 			if ev.Kind == "orphan" && strings.Contains(ierr.Error(), "failed to restore") {
 				c.Known("KF-C26-1", detail)
 			}
+			if in.Genesis.Ancestry && strings.Contains(ierr.Error(), "finalized") && c26RejectedOffHeadBefore(evs, ev.Step) {
+				c.Known("KF-C26-2", detail)
+			}
 			c.Failf("%s", detail)
 		}
 		if root != ev.Root {
@@ -450,6 +462,18 @@ func c26Check(c *kit.Case, in c26Input) {
 		}
 		c.Class("probed_dirty_rejection")
 	}
+}
+
+// c26RejectedOffHeadBefore: node A rejected, before step, a block whose parent was not
+// its head (ImportBlock restores to that parent before validating and, when the
+// block is then rejected, never returns to the head: the ancestry list stays truncated).
+func c26RejectedOffHeadBefore(evs []c26Ev, step int) bool {
+	for _, e := range evs {
+		if e.Step < step && !e.Accepted && e.OffHead {
+			return true
+		}
+	}
+	return false
 }
 
 func c26Which(idx, head int) string {
